@@ -132,7 +132,7 @@ fn main() {
                     .body(body.clone());
                 total += 1;
                 *per_route.entry(route.clone()).or_default() += 1;
-                match tokio::time::timeout(std::time::Duration::from_secs(20), req.send()).await {
+                match tokio::time::timeout(std::time::Duration::from_secs(90), req.send()).await {
                     Ok(Ok(r)) => {
                         *by_status.entry(r.status().as_u16().to_string()).or_default() += 1;
                     }
@@ -142,7 +142,7 @@ fn main() {
                         let _ = e;
                     }
                     Err(_) => {
-                        fails.push((format!("http:{}:no_response", route.replace(' ', "_")), "a malformed signed request got no response within 20 s".into(), json!({"route": route, "mutant": k, "body_hex": hex::encode(&body[..body.len().min(96)])})));
+                        fails.push((format!("http:{}:no_response", route.replace(' ', "_")), "a malformed signed request got no response within 90 s".into(), json!({"route": route, "mutant": k, "body_hex": hex::encode(&body[..body.len().min(96)])})));
                     }
                 }
                 if k % 40 == 39 || k + 1 == ms.len() {
@@ -150,7 +150,7 @@ fn main() {
                         .get(format!("{}{}?connection_id=httpx", base, status_path))
                         .header("x-sos-account-id", account_id.to_string())
                         .header("authorization", format!("Bearer {}", token(&d1, status_path.as_bytes()).await));
-                    let ok = matches!(tokio::time::timeout(std::time::Duration::from_secs(20), req.send()).await, Ok(Ok(r)) if r.status().is_success());
+                    let ok = matches!(tokio::time::timeout(std::time::Duration::from_secs(90), req.send()).await, Ok(Ok(r)) if r.status().is_success());
                     if !ok {
                         fails.push((format!("http:{}:server_stopped_serving", route.replace(' ', "_")), "after malformed requests the server no longer answers a valid status request".into(), json!({"route": route, "around_mutant": k})));
                         break;
@@ -179,7 +179,7 @@ fn main() {
         }
         Err(e) => run.machinery(format!("httpx: {}", e)),
     }
-    cov.insert("rule".into(), json!("7 body-carrying routes x single-point mutants of a valid body (every truncation, bit flips, byte values, inserted oversized varints, extension), each signed by the trusted device over the mutated bytes; every mutant must be answered within 20 s and a valid status request must succeed after every 40 mutants"));
+    cov.insert("rule".into(), json!("7 body-carrying routes x single-point mutants of a valid body (every truncation, bit flips, byte values, inserted oversized varints, extension), each signed by the trusted device over the mutated bytes; every mutant must be answered within 90 s and a valid status request must succeed after every 40 mutants"));
     cov.insert("samples".into(), json!([{"route": "PATCH /sync/account/events", "mutation": "truncate PatchRequest body to 7 bytes, signed by the trusted device", "expected": "an HTTP error response; the next valid GET /sync/account/status answers 200"}]));
     std::process::exit(run.finish(cov));
 }
